@@ -500,17 +500,16 @@ int64_t cmi_pool_acquire_inner(struct cmb_resourcepool *rpp,
         /* Wait at the front door until some more becomes available  */
         cmb_assert_debug(rem_claim > 0u);
         const int64_t sig = cmb_resourceguard_wait(&(rpp->guard), is_available, NULL);
-        if (sig == CMB_PROCESS_PREEMPTED) {
-            /* Got thrown out instead, unwind. */
-            cmb_logger_info(stdout, "Preempted, returning empty-handed");
-
-            return sig;
-        }
-        else if (sig != CMB_PROCESS_SUCCESS) {
+        if (sig != CMB_PROCESS_SUCCESS) {
+            /*
+             * Interrupted, timed out, or preempted (here or from some other
+             * resource). Give back whatever this call has taken so far. If a
+             * preemptor took our holding meanwhile there is no record left.
+             */
             cmb_logger_info(stdout,
                             "Interrupted by signal %" PRId64 ", returning unchanged",
                             sig);
-            if (initially_held > 0u) {
+            if ((initially_held > 0u) && cmi_hashheap_is_enqueued(hhp, key)) {
                 /* Put back the difference. It had some, there should be a record */
                 const uint64_t surplus = reset_holder(hhp, caller, initially_held);
                 rpp->in_use -= surplus;
